@@ -27,6 +27,18 @@ def generate(tier, seed):
             shift = rmin * 1.3 / c['aps'][j][0]
             c['aps'][j] = [a * shift for a in c['aps'][j]]
             c['kind'] = 'too_small'
+        elif k % 12 == 6 and c['drange'][0] != c['drange'][1]:
+            # theta*dmin exactly ON the smallest tabulated aperture of one band (legal), with a dmin that the log-uniform grid
+            # reproduces one ulp low (10**log10(8) = 7.999999999999999)
+            ratio = c['drange'][1] / c['drange'][0]
+            c['drange'] = [8.0, 8.0 * ratio]
+            j = rng.randrange(len(c['wav']))
+            for jj in range(len(c['wav'])):
+                rmin = c['theta'][jj] * 8.0 * 1000.0
+                shift = (rmin if jj == j else rmin * 0.7) / c['aps'][jj][0]
+                c['aps'][jj] = [a * shift for a in c['aps'][jj]]
+                c['aps'][jj][0] = rmin if jj == j else c['aps'][jj][0]
+            c['kind'] = 'on_edge'
         cases.append(c)
     return cases
 
